@@ -1072,7 +1072,9 @@ impl World {
                 if p > 0 {
                     self.n_delay += 1;
                 }
-                vclock::advance(timeout.as_nanos() as u64);
+                // a poll that finds nothing still costs a little time (otherwise a zero read
+                // timeout would freeze the virtual clock and the loop would never make progress)
+                vclock::advance((timeout.as_nanos() as u64).max(100));
                 false
             }
             Alt::Dup => {
